@@ -1635,12 +1635,12 @@ namespace xsimd
         template <class A>
         XSIMD_INLINE void transpose(batch<uint32_t, A>* matrix_begin, batch<uint32_t, A>* matrix_end, requires_arch<avx>) noexcept
         {
-            return transpose(reinterpret_cast<batch<float, A>*>(matrix_begin), reinterpret_cast<batch<float, A>*>(matrix_end), A {});
+            detail::transpose_as<float>(matrix_begin, matrix_end);
         }
         template <class A>
         XSIMD_INLINE void transpose(batch<int32_t, A>* matrix_begin, batch<int32_t, A>* matrix_end, requires_arch<avx>) noexcept
         {
-            return transpose(reinterpret_cast<batch<float, A>*>(matrix_begin), reinterpret_cast<batch<float, A>*>(matrix_end), A {});
+            detail::transpose_as<float>(matrix_begin, matrix_end);
         }
 
         template <class A>
@@ -1665,12 +1665,12 @@ namespace xsimd
         template <class A>
         XSIMD_INLINE void transpose(batch<uint64_t, A>* matrix_begin, batch<uint64_t, A>* matrix_end, requires_arch<avx>) noexcept
         {
-            return transpose(reinterpret_cast<batch<double, A>*>(matrix_begin), reinterpret_cast<batch<double, A>*>(matrix_end), A {});
+            detail::transpose_as<double>(matrix_begin, matrix_end);
         }
         template <class A>
         XSIMD_INLINE void transpose(batch<int64_t, A>* matrix_begin, batch<int64_t, A>* matrix_end, requires_arch<avx>) noexcept
         {
-            return transpose(reinterpret_cast<batch<double, A>*>(matrix_begin), reinterpret_cast<batch<double, A>*>(matrix_end), A {});
+            detail::transpose_as<double>(matrix_begin, matrix_end);
         }
 
         template <class A>
@@ -1706,7 +1706,7 @@ namespace xsimd
         template <class A>
         XSIMD_INLINE void transpose(batch<int16_t, A>* matrix_begin, batch<int16_t, A>* matrix_end, requires_arch<avx>) noexcept
         {
-            return transpose(reinterpret_cast<batch<uint16_t, A>*>(matrix_begin), reinterpret_cast<batch<uint16_t, A>*>(matrix_end), A {});
+            detail::transpose_as<uint16_t>(matrix_begin, matrix_end);
         }
 
         template <class A>
@@ -1742,7 +1742,7 @@ namespace xsimd
         template <class A>
         XSIMD_INLINE void transpose(batch<int8_t, A>* matrix_begin, batch<int8_t, A>* matrix_end, requires_arch<avx>) noexcept
         {
-            return transpose(reinterpret_cast<batch<uint8_t, A>*>(matrix_begin), reinterpret_cast<batch<uint8_t, A>*>(matrix_end), A {});
+            detail::transpose_as<uint8_t>(matrix_begin, matrix_end);
         }
 
         // trunc
